@@ -277,6 +277,8 @@ class Gen:
             if it["k"] == "sc" and self.np_forms and not _inarr and rng.random() < 0.5:     # (a list of ndarrays is not a promised input form)
                 a = np.array([np.frombuffer(bytes(v[0]), dtype=it["np"].lower())[0] for v in vs], dtype=it["np"].lower()).reshape(sh)
                 form = rng.choice(["C", "F", "strided"]) if len(sh) > 1 or n > 1 else "C"
+                if rng.random() < 0.1 and n > 0:       # the same numbers in the non-native byte order
+                    a = a.astype(a.dtype.newbyteorder())
                 if rng.random() < 0.25 and n > 0:      # any convertible dtype: a wider type that holds the same numbers exactly
                     for other in rng.sample(["int64", "float64", "int32", "uint64"], 4):
                         try:
